@@ -242,6 +242,9 @@ func (f *SecretFactory) New(b []byte) (securememory.Secret, error) {
 
 	secret, err := newSecret(len(b), f.memcall())
 	if err != nil {
+		// the source is wiped whether or not a secret could be created
+		core.Wipe(b)
+
 		return nil, err
 	}
 
@@ -251,6 +254,9 @@ func (f *SecretFactory) New(b []byte) (securememory.Secret, error) {
 
 	// Set mprotect to none initially
 	if err := f.memcall().Protect(secret.bytes, memcall.NoAccess()); err != nil {
+		// the page already holds the secret: zero it before it is unlocked and released
+		core.Wipe(secret.bytes)
+
 		// Shouldn't happen, but free up the resources if it does. We intentionally
 		// ignore the errors from the cleanup and return the reason why we got here.
 		if err2 := memcall.Clean(f.memcall(), secret.bytes); err2 != nil {
@@ -281,6 +287,9 @@ func (f *SecretFactory) createRandom(size int, readFunc func(b []byte) (n int, e
 
 	// copy b into bytes and wipe the source
 	if _, err := readFunc(s.bytes); err != nil {
+		// the source may have delivered part of the secret: zero the page before it is unlocked and released
+		core.Wipe(s.bytes)
+
 		// Shouldn't happen, but free up the resources if it does. We intentionally
 		// ignore the errors from the cleanup and return the reason why we got here.
 		if err2 := memcall.Clean(f.memcall(), s.bytes); err2 != nil {
@@ -292,6 +301,9 @@ func (f *SecretFactory) createRandom(size int, readFunc func(b []byte) (n int, e
 
 	// Set mprotect to none initially
 	if err := f.memcall().Protect(s.bytes, memcall.NoAccess()); err != nil {
+		// the page holds the secret: zero it before it is unlocked and released
+		core.Wipe(s.bytes)
+
 		// Shouldn't happen, but free up the resources if it does. We intentionally
 		// ignore the errors from the cleanup and return the reason why we got here.
 		if err2 := f.memcall().Unlock(s.bytes); err2 != nil {
